@@ -151,14 +151,18 @@ def unit_failures(u, U, F, C):
     # size
     if not (x["S"] == x["AS"] == x["SS"] == x["RS"] and x["SA"] == 2 * x["AS"] and x["RSA"] == x["SA"] and x["RI"] == x["SS"] and x["RAI"] == x["AS"]):
         cls = None
-        real_ok = x["AS"] == x["SS"]
-        if is_func and real_ok and x["S"] == x["AS"] and x["SA"] == 2 * x["AS"] and x["RSA"] == x["SA"] and x["RS"] * 2 == x["S"] and x["RI"] == x["RS"] and x["RAI"] == x["RS"]:
-            cls = K_FUNC          # descriptor of the func type says one word
-        elif u["recursive_func"] and real_ok:
+        base_ok = x["AS"] == x["SS"] and x["RAI"] == x["RS"] and x["RI"] == x["RS"]
+        real_ok = base_ok and x["RSA"] == 2 * x["RS"]
+        if u["recursive_func"] and x["AS"] == x["SS"]:
             cls = K_RECUR
-        elif u["alias_func"] and real_ok:
+        elif is_func and base_ok and x["RS"] * 2 == x["AS"] and x["RSA"] == 2 * x["AS"]:
+            if x["S"] == x["AS"] and x["SA"] == 2 * x["AS"]:
+                cls = K_FUNC      # descriptor of the func type says one word
+            elif u["alias_func"] and x["S"] == x["RS"]:
+                cls = K_ALIAS     # and the constant folded through the alias says one word too
+        elif u["alias_func"] and real_ok and x["S"] != x["RS"] and (x["RS"] == x["AS"] or (u["trailing_zs"] and x["RS"] > x["AS"])):
             cls = K_ALIAS         # constant folded through an alias lost the second word of the func fields
-        elif u["trailing_zs"] and real_ok and x["AS"] < x["S"] and x["RS"] == x["S"] and x["RSA"] == x["SA"] == 2 * x["S"] and x["RI"] == x["RS"]:
+        elif u["trailing_zs"] and real_ok and x["S"] == x["RS"] and x["RS"] > x["AS"] and x["SA"] == 2 * x["S"]:
             cls = K_TRAIL         # folded constant and descriptor carry the gc padding, generated code does not
         out.append(("size", "Sizeof=%(S)d array-stride=%(AS)d slice-stride=%(SS)d reflect.Size=%(RS)d Sizeof([2]T)=%(SA)d reflect([2]T).Size=%(RSA)d reflect slice Index stride=%(RI)d reflect array Index stride=%(RAI)d" % x, cls))
     # alignment
@@ -243,7 +247,12 @@ def leg_c(chk):
     def bg():
         try:
             llgo_box["llgo"] = core.build_llgo(w)
-            box["results"] = core.pmap(job, ["probe"] + progs, workers=5)
+            import time as _t
+            t1 = _t.time()
+            first = job("probe")          # also warms the run's private llgo package cache (runtime, reflect)
+            box["t_llgo_and_probe_s"] = round(_t.time() - t1, 1)
+            box["results"] = [first] + core.pmap(job, progs, workers=4)
+            box["t_c_builds_s"] = round(_t.time() - t1, 1)
         except BaseException as ex:      # surfaced by the caller
             box["error"] = ex
 
@@ -257,6 +266,8 @@ def leg_c_finish(chk, th, box, progs, nprog, nunits):
     if "error" in box:
         raise box["error"]
     results = box["results"]
+    chk.cov["wall_c_probe_build_s"] = box.get("t_llgo_and_probe_s")
+    chk.cov["wall_c_builds_s"] = box.get("t_c_builds_s")
 
     # ---- fixed probes first
     _, prc, perr, runs = results[0]
